@@ -119,6 +119,19 @@ pub mod watch {
         MY_SLOT.with(|i| slots()[*i].beat.fetch_add(1, Ordering::Relaxed));
     }
 
+    /// What the calling thread is doing right now, for the handler of a process abort (an
+    /// allocation failure inside the crate aborts, it does not unwind): (inside a top-level run?,
+    /// fault fired in the instance being driven?, the run).
+    pub fn current() -> (bool, bool, Option<(RunSpec, Vec<Budget>)>) {
+        MY_SLOT.with(|i| {
+            let s = &slots()[*i];
+            let inside = s.started_ms.load(Ordering::Acquire) != 0;
+            let fired = s.fired.load(Ordering::Relaxed);
+            let spec = s.spec.try_lock().ok().and_then(|g| g.clone());
+            (inside, fired, spec)
+        })
+    }
+
     /// Violations found so far by any worker, as ready-to-write replay documents: if a run that
     /// C06 does not speak about hangs the process, they are reported before it exits.
     pub static PENDING: Mutex<Vec<(String, String)>> = Mutex::new(Vec::new());
